@@ -86,3 +86,26 @@ PROPS.update({
                'w(k) = min(base*2^k, max).', technique='Verus function contracts + inductive lemma on extracted real functions', design_ref='DESIGN.md 3/C19',
                level_note=TRUST_COMMON + ' rand::Rng::gen_range is an assumed specification (panics on empty range; result in range).'),
 })
+
+CWR = ['cwr_publish_result', 'cwr_subscribe_result', 'cwr_unsubscribe_result', 'cwe_error']
+
+PROPS['C03']['ev'] = ['codec']
+PROPS['C03']['level_text'] += (' Plus unbounded Verus proofs of decode_vli (framing and value), and of the frame decoder steps: one header byte consumed per step, '
+                               'a packet whose announced size exceeds the maximum in force is rejected when its length field completes, before any body byte is buffered.')
+PROPS['C03']['level_note'] += ' ' + TRUST_COMMON
+PROPS.update({
+    'C02': _ev(['codec', 'validate'], 'Unbounded proofs that encode_vli appends exactly the Variable Byte Integer of the value (spec function written from OASIS 1.5.5), that the size function equals its length, '
+               'and that the PUBLISH / SUBSCRIBE remaining-length and property-length computations equal the wire layouts of the specification with no overflow or truncation. '
+               'Byte-level output of the step encoder is a bounded Kani check only.', design_ref='DESIGN.md 3/C02',
+               level_note=TRUST_COMMON + ' String byte length is an uninterpreted function blen(); &str-length functions are assumed here and decided by E-K.'),
+    'C16': _ev(['validate'], 'Unbounded proofs, in both directions (Ok <=> rules hold), for validate_user_properties, validate_publish_packet_outbound(_internal), '
+               'validate_subscribe_packet_outbound(_internal), is_valid_topic_filter_internal, and the length helpers they use.', design_ref='DESIGN.md 3/C16',
+               level_note=TRUST_COMMON + ' Topic / filter grammar functions (is_valid_topic, compute_topic_filter_properties) and validate_string_length are assumed contracts here, examined by E-K (bounded).'),
+    'C13': _ev(['ws'], 'Unbounded proof that MessageCursor::read hands over the next min(remaining, dest.len()) payload bytes in order exactly once. The wrapper loop over tungstenite messages is a bounded check (E-B); '
+               'thread/task interleavings of the two drivers and the submit/close races are outside contract-based verification.', design_ref='DESIGN.md 3/C13',
+               level_note=TRUST_COMMON + ' tungstenite Message / WebSocket are shims.'),
+    'C17': _ev(['alias', 'protocol'], 'Unbounded proofs for the inbound resolver (empty topic -> bound topic or error; 0 / out-of-range -> error; reset empties), the manual and null outbound resolvers '
+               '(skip-topic only for an alias currently bound to exactly that topic; alias in 1..=max; table updated exactly when an alias is sent with its topic), and that the engine resets both at CONNACK. '
+               'LRU resolver is bounded (E-B).', design_ref='DESIGN.md 3/C17',
+               level_note=TRUST_COMMON + ' "Table stays in step with the wire" across last-chance validation failures is not decidable by a contract (RefCell behind &self).'),
+})
